@@ -197,6 +197,8 @@ package storage
 //@ func writeSnapshot
 //@   property C15
 //@   requires txn != nil && SnapOK(snap)
+//@   trustpre PayloadHash[canonical] -- added for C07: PayloadHash sorts snap.Transactions in place unless they already are in canonical order; a snapshot
+//@       -- reaches the store with its Hash set, i.e. after it was hashed (and thereby sorted) or decoded
 //@   requires [stored] forall i int :: {snap.Transactions[i]} 0 <= i && i < len(snap.Transactions) ==> HasTx(*txn, snap.Transactions[i]) -- otherwise readTransaction returns nil and finalizeTransaction dereferences it; established by the Debug block of WriteSnapshot (which panics first) and, before that, by kernel.validateSnapshotTransaction
 //@   modifies *txn
 //@   ensures [change] SnapChange(old(*txn), *txn, kvval(snap.NodeId), SnapKeyOf(snap), snap.TopologicalOrder, common.SnapId(snap.Snapshot))
@@ -233,6 +235,8 @@ package storage
 //@   maypanic
 //@   requires StoreOK(s) && SnapOK(snap)
 //@   requires [signers] len(signers) < 144115188075855872 -- see writeSnapshotWork
+//@   trustpre PayloadHash[canonical] -- added for C07: PayloadHash sorts snap.Transactions in place unless they already are in canonical order; a snapshot
+//@       -- reaches the store with its Hash set, i.e. after it was hashed (and thereby sorted) or decoded
 //@   requires [debug-block] let v == badger.dbget(*s.snapshotsDB, RK(snap.NodeId)) in v != 0 && common.RoundHashOf(v).HasValue() && (common.RoundNumberOf(v) > 0 ==> common.RoundHasRefs(v)) &&
 //@       (snap.RoundNumber > 0 ==> snap.References != nil) -- the assertion block dereferences the round cache and both reference links: kernel writes ROUND/<node> (StartNewRound, C20: a stored round has a non-zero hash; a round with a positive number carries its references) before the first snapshot of a round; a snapshot of a positive round carries references (C07 decoder: round rules)
 //@   modifies *s.snapshotsDB
